@@ -167,6 +167,7 @@ func Harness_Phase1() {
 	vhAssert(vhAcyclic(g, nodes, nil), "result-acyclic")
 	vhAssert(vhListsConsistent(g, nodes), "adjacency-lists-consistent")
 	for i, e := range g.Edges {
+		vhObserveBool("reversed", e.IsReversed)
 		vhAssert(e.IsReversed == (e.From != from[i]), "isreversed-flag-matches-orientation")
 		if wasDag {
 			if vhConst("KNOWN_G1") == 1 {
